@@ -130,14 +130,17 @@ func (m *expirationMap[V]) cleanup(store store[V], policy *defaultPolicy[V], onE
 	}
 	m.lastCleanedBucketNum = currentBucketNum
 	m.Unlock()
+	verifPoint(policy, vpSweepGrabbed, uint64(currentBucketNum))
 
 	for _, keys := range buckets {
 		for key, conflict := range keys {
+			verifPoint(policy, vpSweepKey, key)
 			expr := store.Expiration(key)
 			// Sanity check. Verify that the store agrees that this key is expired.
 			if expr.After(now) {
 				continue
 			}
+			verifPoint(policy, vpSweepChecked, key)
 
 			cost := policy.Cost(key)
 			policy.Del(key)
